@@ -14,7 +14,8 @@ from harness import common as H
 PROP = "C19"
 RULE = ("cases: (and) 1-5 consecutive fibers, each a pair of leaf fibers [[coord, value]…] incl. empty "
         "operands and explicit defaults, under 0-2 outer loop ranks, every grouping of the fibers into "
-        "addTraces calls (fiber by fiber, one shot, mixed); small scope = all pairs of coordinate subsets "
+        "addTraces calls (fiber by fiber, one shot, mixed, with calls that receive nothing before the first / "
+        "between / after the last intersection); small scope = all pairs of coordinate subsets "
         "of {0..n-1}; (lf) same operands through the leader-follower intersection; (swaps) trees of "
         "2-4 ranks, merge depth 0-1, radix 2..5 or inf, latency 1..3 or 'N', sub-fibers incl. empty ones "
         "and ones holding only explicit defaults (which count like any other). non-trivial = (and) >= 1 merge step and at least one of "
@@ -107,6 +108,26 @@ def gen_and_small(tier):
                             repr(x) in small and repr(y) in small and repr(z) in small):
                         continue
                     yield and_case("and", [x, y, z], sizes, 2 if len(sizes) == 2 else 1)
+    # calls that receive nothing: before the first intersection (as when the traces are handed
+    # over at the top of every outer iteration), between two intersections, after the last one
+    for a in s1:
+        for b in s1:
+            for sizes in ([0, 1], [1, 0], [0, 1, 0]):
+                yield and_case("and", [(leaf(a), leaf(b))], sizes, 1)
+    for x in p2:
+        for y in p2:
+            for sizes in ([0, 1, 1], [1, 0, 1, 0], [0, 2, 0]) if tier == "quick" else ([0, 1, 1], [1, 0, 1, 0]):
+                yield and_case("and", [x, y], sizes, 1)
+    for x in p3s:
+        for y in p3s:
+            for z in p3s:
+                yield and_case("and", [x, y, z], [0, 1, 0, 2], 1)
+    for x in p2:
+        for sizes in ([0, 1], [0, 1, 0]):
+            yield and_case("lf", [x], sizes, 0)
+        for y in p2[:: (1 if tier != "quick" else 3)]:
+            for sizes in ([0, 1, 1], [1, 0, 1, 0]):
+                yield and_case("lf", [x, y], sizes, 1)
     # the same operand pair repeated without any outer rank (as in test_intersector): per fiber only
     for a in s2:
         for b in s2:
@@ -152,6 +173,12 @@ def gen_and_random(rng, count):
         sizes = rng.choice(list(compositions(k)))
         if rng.random() < 0.3:
             sizes = [1] * k
+        if rng.random() < 0.35:          # calls that receive nothing
+            sizes = list(sizes)
+            for _ in range(rng.choice([1, 1, 2, 3])):
+                sizes.insert(rng.randrange(len(sizes) + 1), 0)
+            if rng.random() < 0.3:       # "top of every outer iteration, and once after the loop"
+                sizes = [0] + [1] * k
         yield and_case(kind, pairs, sizes, nout, rand_prefixes(rng, k, nout), dflt)
 
 
@@ -312,43 +339,49 @@ def run_and(case):
                        for j in range(i, i + s)])
         i += s
     case["groups"] = groups
-    ends = set(itertools.accumulate(sizes))
     if kind == "and":
         objs = {"tf": M.TwoFinger(), "sa": M.SkipAhead(), "lf0": M.LeaderFollower(), "lf1": M.LeaderFollower()}
     else:
         objs = {"lf": M.LeaderFollower()}
     alive = {k: True for k in objs}
     batches = []
+
+    def consume():
+        """hand whatever has accumulated since the last call to every cost model"""
+        t0 = Metrics.consumeTrace("K", "intersect_0")
+        t1 = Metrics.consumeTrace("K", "intersect_1")
+        if kind == "and":
+            batches.append([t0, t1])
+            for k, tr in (("tf", (t0, t1)), ("sa", (t0, t1)), ("lf0", (t0,)), ("lf1", (t1,))):
+                if alive[k]:
+                    alive[k] = _feed(objs[k], *[list(x) for x in tr])
+        else:
+            batches.append(t0)
+            if alive["lf"]:
+                alive["lf"] = _feed(objs["lf"], list(t0))
+
     Metrics.beginCollect()
     try:
         Metrics.trace("K", "intersect_0", consumable=True)
         Metrics.trace("K", "intersect_1", consumable=True)
         walker = _walk(root, nout) if len(pairs) > 0 else iter(())
-        for idx in range(len(pairs)):
-            if nout > 0 or idx == 0:
-                next(walker)
-            a = H.build_fiber(pairs[idx][0], 1, dflt)
-            b = H.build_fiber(pairs[idx][1], 1, dflt)
-            a.getRankAttrs().setId("K")
-            b.getRankAttrs().setId("K")
-            if kind == "and":
-                z = a & b
-            else:
-                z = Fiber.intersection(a, b, style="leader-follower")
-            for _ in z:
-                pass
-            if idx + 1 in ends:
-                t0 = Metrics.consumeTrace("K", "intersect_0")
-                t1 = Metrics.consumeTrace("K", "intersect_1")
+        idx = 0
+        for size in sizes:       # a group of size 0: a call that receives nothing new
+            for _ in range(size):
+                if nout > 0 or idx == 0:
+                    next(walker)
+                a = H.build_fiber(pairs[idx][0], 1, dflt)
+                b = H.build_fiber(pairs[idx][1], 1, dflt)
+                a.getRankAttrs().setId("K")
+                b.getRankAttrs().setId("K")
                 if kind == "and":
-                    batches.append([t0, t1])
-                    for k, tr in (("tf", (t0, t1)), ("sa", (t0, t1)), ("lf0", (t0,)), ("lf1", (t1,))):
-                        if alive[k]:
-                            alive[k] = _feed(objs[k], *[list(x) for x in tr])
+                    z = a & b
                 else:
-                    batches.append(t0)
-                    if alive["lf"]:
-                        alive["lf"] = _feed(objs["lf"], list(t0))
+                    z = Fiber.intersection(a, b, style="leader-follower")
+                for _ in z:
+                    pass
+                idx += 1
+            consume()
         for _ in walker:   # let the outer loops finish
             pass
     finally:
@@ -462,12 +495,15 @@ def nontrivial(case, verdict):
 
 
 def signature(case, verdict, failed):
-    """classification of a failing case (no class of C19 is a known finding any more: the
-    one-shot over-count of the two-finger / skip-ahead models and the payload dependence of
-    numSwaps were repaired in the library)"""
+    """classification of a failing case for known_findings.json.  A spec failure is attributed to
+    the known class only if the model reproduces the implementation's totals (agree)."""
     kind = case["kind"]
     why = verdict.get("why", "")
     part = why[why.find("specfail="):] if "specfail=" in why else ""
+    t = verdict.get("tags", [])
+    if (kind == "and" and failed == ["spec"] and verdict.get("agree") and "empty-first-call" in t
+            and part == "specfail=[tf]" and case["impl"].get("tf") == "ERR"):
+        return "and:two-finger:empty-first-call:raises"
     return f"{kind}:{'/'.join(sorted(failed))}:{part}"
 
 
@@ -491,6 +527,12 @@ def shrink_candidates(case):
         return
     pairs, prefixes, sizes = case["pairs"], case["prefixes"], case["sizes"]
     base = {k: v for k, v in case.items() if k != "groups"}
+    # drop a call that receives nothing
+    for gi, sz in enumerate(sizes):
+        if sz == 0:
+            c = dict(base)
+            c["sizes"] = sizes[:gi] + sizes[gi + 1:]
+            yield c
     # drop a fiber
     for i in range(len(pairs)):
         if len(pairs) == 1:
@@ -501,7 +543,7 @@ def shrink_candidates(case):
                 s2[gi] -= 1
                 break
             acc += s
-        s2 = [s for s in s2 if s > 0]
+        s2 = [s for gj, s in enumerate(s2) if s > 0 or sizes[gj] == 0]
         c = dict(base)
         c["pairs"] = pairs[:i] + pairs[i + 1:]
         c["prefixes"] = prefixes[:i] + prefixes[i + 1:]
